@@ -260,7 +260,7 @@ MANIFEST_TEXT = {
          "note": COMMON_NOTE + "Says nothing about serde_yaml's own parser beyond not panicking on the fuzzed inputs; stack exhaustion beyond depth 64 is out of scope.", "technique": T},
  "C05": {"level": "Exhaustive within the bound: every token string of length <= 5 (thorough 6: 299,593 strings) over {A,B,C,and,or,not,(,)} is parsed by the TLA+ Pratt model and by the reference grammar (TLC checks they agree and that text rendering tokenises back); every accepted string and every rejected one of up to 4 (5) tokens is loaded for real and matched under all {T,F,M} assignments of its identifiers; load outcome and every verdict must be what the reference parse yields.",
          "note": COMMON_NOTE + "Beyond the exhaustive bound: random condition trees (cast comparisons with parenthesised operands, identifier names in which keyword letters are followed by _ . # [ ]) re-spaced and re-parenthesised, read back by the reference grammar; random token soups whose load outcome the grammar model decides.", "technique": T},
- "C06": {"level": "Exhaustive within the bound: TLC enumerates every connective form (binary chains, mapping/sequence groups, not, all()/of() over identifiers, plain/all()/of()/not() key lists, batched and mixed) x arity 1..3 (thorough 1..5) x every {T,F,M} vector x every threshold, checks the solver-loop model against the truth tables and their set-lifted forms, and each case is replayed through Rule::matches (three-valued result observed via the rule and its negation; also optimised) and validated by TLC against the language layer. The non-true values of all()/of() are pinned by the same rules as and/or (DESIGN 4.1). Unbounded part (thorough tier): the group loops as streaming machines (spec/TauFold.tla) satisfy 'loop value = closed form of the table on the operands so far' as an inductive invariant discharged by Apalache for every arity and threshold; MC_Fold (TLC) ties the streaming machines to the recursive folds that the replay binds to solver.rs.",
+ "C06": {"level": "Exhaustive within the bound: TLC enumerates every connective form (binary chains, mapping/sequence groups, not, all()/of() over identifiers, plain/all()/of()/not() key lists, batched and mixed) x arity 1..3 (thorough 1..5) x every {T,F,M} vector x every threshold, checks the solver-loop model against the truth tables and their set-lifted forms, and each case is replayed through Rule::matches (three-valued result observed via the rule and its negation; also optimised) and validated by TLC against the language layer. The non-true values of all()/of() are pinned by the same rules as and/or (DESIGN 4.1). Unbounded part (thorough tier): the group loops as streaming machines (spec/TauFold.tla) satisfy 'loop value = closed form of the table on the operands so far' as an inductive invariant discharged by Apalache for every arity and threshold; MC_Fold (TLC) ties the streaming machines to the recursive folds that the replay binds to solver.rs. Further forms: every operand on ONE field (a number) under str() casts, numeric equality and an un-cast text pattern (seq/or/and/of); a negated ordering comparison against a value that is smaller, absent or not convertible (`not A`, `not (int(f) > 1)`, `not(f): '>1'`), all also optimised.",
          "note": COMMON_NOTE + "Three-valued results are observed through the engine's own `not`, itself one of the enumerated forms.", "technique": T_FOLD},
  "C07": {"level": "Exhaustive within the bound: alphabet {a,b,A}, needles <= 2, haystacks <= 3 (thorough 4), kinds exact/prefix/suffix/contains/any and 11 regex shapes, with and without the i flag; all singles and all ordered pairs with needles <= 1: TLC checks the hit-set model of the batched automaton against the documented relations, every case is replayed (also optimised) and validated. Pattern syntax itself (what 'x*', '*x', quotes, i mean) is checked on every string <= 3 (4) over the 13 syntax characters via into_identifier. Seeded: long and multi-byte strings, lists of 1-5 patterns, arrays.",
          "note": COMMON_NOTE + "Regexes outside the modelled sub-language (literals, ., .*, .*?, ^, $, Perl classes, bracket sets, + ? *) are not given a semantic oracle.", "technique": T},
@@ -268,19 +268,19 @@ MANIFEST_TEXT = {
          "note": COMMON_NOTE + "Lists with duplicate members are excluded ('distinct members' is ambiguous).", "technique": T},
  "C09": {"level": "Exact decimal digit arithmetic in TLA+ (TLC integers are 32-bit): TLC checks trichotomy, the unions >=,<=, NaN and the engine's representation-based comparison table over 64-bit boundary points; 257 (form, operator, constant) cases x 43 field values (i64::MIN..u64::MAX, signed zero, dyadic floats, 2^63 as float, NaN, infinities, numeric and odd strings, booleans, null, containers) are replayed; seeded random 64-bit values against random constants compared digit by digit, single values and list members; bare YAML constants above i64::MAX (float kind: soundness only), neighbouring doubles, bare numbers and non-canonical numeric texts under str(), number lists against texts and fractions, int() of texts at the i64 extremes, not(k) on comparisons against incomparable values; the static semantics (typ) decides which cast/value combinations load.",
          "note": COMMON_NOTE + "Floats are restricted to exactly representable short decimals; flt() of integers above 2^53 and str() of floats beyond 15 digits are left open.", "technique": T},
- "C10": {"level": "TLC enumerates every document shape to depth 1 (thorough 2) under a root {a, b} with position-labelled leaves x every well-formed path of <= 3 (2) segments over {a,b,a[0],a[1],b[0]} and checks the engine's cursor walk against descent; every (document, key) is then asked of Object::find / Document::find on four representations and the returned value compared structurally; keys with an empty segment (a., .a, a..b), with a non-numeric index (a[], a[x]) or with a numeric NAME (a.0) are proved missing in the model and in the engine walk. A nested mapping over every array of <= 2 (3) elements (objects with each key good/bad/absent, scalars, empty arrays) is checked against 'some element satisfies it' (MC_Nest). Seeded: dotted/indexed keys and nested mappings through Rule::matches on documents with arrays of objects and null leaves; nested blocks on one field under all 17 switch sets.",
+ "C10": {"level": "TLC enumerates every document shape to depth 1 (thorough 2) under a root {a, b} with position-labelled leaves x every well-formed path of <= 3 (2) segments over {a,b,a[0],a[1],b[0]} and checks the engine's cursor walk against descent; every (document, key) is then asked of Object::find / Document::find on four representations and the returned value compared structurally; keys with an empty segment (a., .a, a..b), with a non-numeric index (a[], a[x]) or with a numeric NAME (a.0) are proved missing in the model and in the engine walk. A nested mapping over every array of <= 2 (3) elements (objects with each key good/bad/absent, scalars, empty arrays) is checked against 'some element satisfies it' (MC_Nest). Seeded: dotted/indexed keys and nested mappings through Rule::matches on documents with arrays of objects and null leaves; nested blocks on one field under all 17 switch sets. A signed index (a[+1]) and a second index group (a[1][2]) are missing in the model; the code's former behaviour is kept as the named deviations index_plus / index_first_group (off since the repair).",
          "note": COMMON_NOTE + "Ill-formed keys (a[0][1], a..b) are checked for totality only.", "technique": T},
- "C11": {"level": "Every (rule, abstract document) of 600 (thorough 12k) seeded cases is matched through up to 10 representations (serde_yaml value and re-parsed text, serde_json value and re-parsed text, HashMap over std types i8..u64/f32/f64/Option/Vec/HashSet/nested maps, a hand-written Object with unsigned and with signed non-negative integers, a hand-written Document, a hand-written Object whose content is reachable only through its overridden find(), a flat-table Document of full dotted paths); TLC binds one denotation per (switch class, document) and rejects any disagreement. A third of the cases are numeric predicates over integer width boundaries (i8..u64) and over floats that are exact in f32 but long in decimal; flt() casts at the width boundaries; paths whose steps meet the other container (t.0 on an array, t[0] on an object).",
+ "C11": {"level": "Every (rule, abstract document) of 600 (thorough 12k) seeded cases is matched through up to 10 representations (serde_yaml value and re-parsed text, serde_json value and re-parsed text, HashMap over std types i8..u64/f32/f64/Option/Vec/HashSet/nested maps, a hand-written Object with unsigned and with signed non-negative integers, a hand-written Document, a hand-written Object whose content is reachable only through its overridden find(), a flat-table Document of full dotted paths); TLC binds one denotation per (switch class, document) and rejects any disagreement. A third of the cases are numeric predicates over integer width boundaries (i8..u64) and over floats that are exact in f32 but long in decimal; flt() casts at the width boundaries; paths whose steps meet the other container (t.0 on an array, t[0] on an object). Texts that end in a line break under end-sensitive patterns; NaN and infinities through every representation that can carry them.",
          "note": COMMON_NOTE + "NaN/inf cannot be carried by JSON and are skipped there.", "technique": T},
- "C12": {"level": "Per seeded case: each of 5 switch sets is optimised 4 times (printed expression must be identical - bound in the specification's `prints`), a second optimise() with other switches must be the identity (spec action ReOptimise), every document is matched from the main thread, from 4 free-running threads sharing one &Rule in different orders, and - for nested rules - from 16 threads that walk a hand-written document in LOCK STEP (every Object::get is a rendezvous: the schedule with maximal overlap); every case is executed again later in the same process in reverse order and once more in a second process in reverse order, every second case is the case-flag twin of its predecessor, lists of 65-200 needles are matched in runs of different sizes, quantified lists meet mistyped fields, or-groups hold several batches of equal size, and three rules with six 120-needle lists each are optimised 96 times in one process (prints compared by length and hash); TLC requires every observation of a (switch class, document) to equal the bound denotation. The action property Pure (matching changes no rule state) is part of TauRule.",
+ "C12": {"level": "Per seeded case: each of 5 switch sets is optimised 4 times (printed expression must be identical - bound in the specification's `prints`), a second optimise() with other switches must be the identity (spec action ReOptimise), every document is matched from the main thread, from 4 free-running threads sharing one &Rule in different orders, and - for nested rules - from 16 threads that walk a hand-written document in LOCK STEP (every Object::get is a rendezvous: the schedule with maximal overlap); every case is executed again later in the same process in reverse order and once more in a second process in reverse order, every second case is the case-flag twin of its predecessor, lists of 65-200 needles are matched in runs of different sizes, quantified lists meet mistyped fields, or-groups hold several batches of equal size, and three rules with six 120-needle lists each are optimised 96 times in one process (prints compared by length and hash); TLC requires every observation of a (switch class, document) to equal the bound denotation. The action property Pure (matching changes no rule state) is part of TauRule. Model stage: the life-cycle machine itself (spec/TauRule.tla) is explored by TLC on its own (spec/MC_Life.tla): every schedule of opt / match / validate / serialise+reload / re-optimise / edit-the-example-lists calls on four small rules, up to 2 (thorough 3) objects and 4 (5) calls, with design-level invariants (DenSound, ValidateLaw, ReloadPlain, OnceOnly, SwBlind, the action property Pure); the schedule of every TRANSITION of the abstract state graph (history hidden by a VIEW) is executed call by call against real Rule objects (runner `sched`) and the recorded events validated like any other trace. The second process runs with a log subscriber listening at DEBUG; threads start together behind a barrier and walk the documents repeatedly; regexes over 600-character values; conditions that name an identifier in a spelling no key has.",
          "note": COMMON_NOTE + "Schedules of the real threads are sampled (free-running) or forced (lock step), not enumerated.", "technique": T},
- "C13": {"level": "validate() is specified as a function of the bound denotation of the same switch class (TauRule!ValidateOk): ok iff no true_positives example fails and no true_negatives example matches, else a Validation error naming exactly the failing examples (markers planted in the examples; unmarked examples let the same document stand in both lists or twice in one), err (not panic) for a non-mapping example (text, number, null, lists incl. the empty one), flat dotted-key spellings of nested documents as examples. 800 (15k) seeded cases, unoptimised and two optimised forms.",
+ "C13": {"level": "validate() is specified as a function of the bound denotation of the same switch class (TauRule!ValidateOk): ok iff no true_positives example fails and no true_negatives example matches, else a Validation error naming exactly the failing examples (markers planted in the examples; unmarked examples let the same document stand in both lists or twice in one), err (not panic) for a non-mapping example (text, number, null, lists incl. the empty one), flat dotted-key spellings of nested documents as examples. 800 (15k) seeded cases, unoptimised and two optimised forms. Model stage: the life-cycle machine itself (spec/TauRule.tla) is explored by TLC on its own (spec/MC_Life.tla): every schedule of opt / match / validate / serialise+reload / re-optimise / edit-the-example-lists calls on four small rules, up to 2 (thorough 3) objects and 4 (5) calls, with design-level invariants (DenSound, ValidateLaw, ReloadPlain, OnceOnly, SwBlind, the action property Pure); the schedule of every TRANSITION of the abstract state graph (history hidden by a VIEW) is executed call by call against real Rule objects (runner `sched`) and the recorded events validated like any other trace. validate() may come before any match (the language layer then pins the verdicts) and must follow the example lists the object holds NOW (they are public fields: action EditExamples); merge-key spellings (`<<`) of example documents.",
          "note": COMMON_NOTE, "technique": T},
- "C14": {"level": "Each object (unoptimised and optimised) is serialised, reloaded through from_str and from_value; the reloaded rule's detection and examples must equal the rule AS WRITTEN (canonical YAML comparison; identifier names differing only in case, quoting-sensitive strings) and its verdicts are held against the denotation of the not-optimised class; from_str/from_value must agree on load outcome; matching the reloaded rule must not panic.",
+ "C14": {"level": "Each object (unoptimised and optimised) is serialised, reloaded through from_str and from_value; the reloaded rule's detection and examples must equal the rule AS WRITTEN (canonical YAML comparison; identifier names differing only in case, quoting-sensitive strings) and its verdicts are held against the denotation of the not-optimised class; from_str/from_value must agree on load outcome; matching the reloaded rule must not panic. Model stage: the life-cycle machine itself (spec/TauRule.tla) is explored by TLC on its own (spec/MC_Life.tla): every schedule of opt / match / validate / serialise+reload / re-optimise / edit-the-example-lists calls on four small rules, up to 2 (thorough 3) objects and 4 (5) calls, with design-level invariants (DenSound, ValidateLaw, ReloadPlain, OnceOnly, SwBlind, the action property Pure); the schedule of every TRANSITION of the abstract state graph (history hidden by a VIEW) is executed call by call against real Rule objects (runner `sched`) and the recorded events validated like any other trace. One text in ten repeats its first identifier key with another definition: it must not load, and if it did, the definition evaluated and the one serialised must be the same.",
          "note": COMMON_NOTE + "Identifier order in the serialised text is HashMap order and is ignored.", "technique": T},
- "C15": {"level": "The harness is built twice (default and feature ignore_case); both run the same seeded cases in which every string pattern is case-insensitive (default build writes the i prefix, ignore_case build does not); the merged trace is validated by TLC against one denotation and the case-insensitive language-layer oracle, not optimised and optimised. The pattern-text model is TLC-checked with IcBuild = TRUE, and every pattern string of length <= 3 over the 13 syntax characters is put through into_identifier in BOTH builds, each result judged with the build that produced it (kind, case flag, argument, regex source text). Field names keep their case in both builds (documents with a case-swapped name), and str(a) == str(b) in the condition stays exact.",
+ "C15": {"level": "The harness is built twice (default and feature ignore_case); both run the same seeded cases in which every string pattern is case-insensitive (default build writes the i prefix, ignore_case build does not); the merged trace is validated by TLC against one denotation and the case-insensitive language-layer oracle, not optimised and optimised. The pattern-text model is TLC-checked with IcBuild = TRUE, and every pattern string of length <= 3 over the 13 syntax characters is put through into_identifier in BOTH builds, each result judged with the build that produced it (kind, case flag, argument, regex source text). Field names keep their case in both builds (documents with a case-swapped name), and str(a) == str(b) in the condition stays exact. Booleans and numbers under a str() cast next to patterns on the same field (they are exact texts, not patterns: no build folds them), optimised with shake.",
          "note": COMMON_NOTE, "technique": T},
- "C16": {"level": "Every match is also made through a recording document; each find(key) on the root or a nested object must be a key the rule writes for that position (spec/TauKeys.tla: blocks and positions), never a synthetic matrix key; each document comes with two variants that differ only in fields no rule addresses (including one-character keys \\u{0}.., names that occur only as later segments of dotted keys, extra members inside nested objects, #text / value members of objects that stand where a text is expected) and must share its denotation. Four switch states per case.",
+ "C16": {"level": "Every match is also made through a recording document; each find(key) on the root or a nested object must be a key the rule writes for that position (spec/TauKeys.tla: blocks and positions), never a synthetic matrix key; each document comes with two variants that differ only in fields no rule addresses (including one-character keys \\u{0}.., names that occur only as later segments of dotted keys, extra members inside nested objects, #text / value members of objects that stand where a text is expected) and must share its denotation. Four switch states per case. Documents also get members LITERALLY named like a dotted path of the rule ('s.t': v).",
          "note": COMMON_NOTE + "The recording document resolves paths with its own reference walk; number and order of calls are not constrained.", "technique": T},
  "C17": {"level": "TLC checks on every vector and every permutation (arity <= 3, thorough 4) that the solver loops and the language layer are order-free for TRUE, and emits every commutative C06 case with its reversed writing as an alternative source; seeded random rules get three random reorderings of and/or operands, mapping entries, sequence entries and list members at positions not under a negation or none-of; TLC requires one denotation per case, not optimised and under three optimised switch sets. Unbounded part (thorough tier): spec/TauFold.tla - the verdict of each group loop depends only on order-free quantities (number of true operands, any false, any missing), an inductive invariant discharged by Apalache for every arity.",
          "note": COMMON_NOTE, "technique": T_FOLD},
